@@ -386,10 +386,9 @@ func (np *NetworkPolicy) GetEgressAllowedConns(dst Peer) (*common.ConnectionSet,
 		if err != nil {
 			return res, err
 		}
+		// all the rules are examined, also when the connections allowed so far are all the connections: whether a rule
+		// that cannot be evaluated is reported must not depend on the order of the rules
 		res.Union(ruleConns)
-		if res.AllowAll {
-			return res, nil
-		}
 	}
 	return res, nil
 }
@@ -412,10 +411,9 @@ func (np *NetworkPolicy) GetIngressAllowedConns(src, dst Peer) (*common.Connecti
 		if err != nil {
 			return res, err
 		}
+		// all the rules are examined, also when the connections allowed so far are all the connections: whether a rule
+		// that cannot be evaluated is reported must not depend on the order of the rules
 		res.Union(ruleConns)
-		if res.AllowAll {
-			return res, nil
-		}
 	}
 	return res, nil
 }
